@@ -9,8 +9,12 @@
        column, mean 0, U = Y, V = Y^T, R = the blocks side by side)   utils.h:330-406
      UKFCorrection::correctStep (Additive) + unscented_transform(.., AdditiveMeasurementModel&)
                                                 UKFCorrection.cpp:86-167, sigma_point.cpp:133-215, 300-330
-   Scope: LINEAR state and measurement layouts (dim_circular = 0, no noise block), i.e.
-   state.dim = state.dim_covariance = n.  SUKFCorrection sizes its sigma set from
+   Scope: LINEAR or EULER state layouts (nl linear rows followed by n - nl angles, no
+   quaternion, no noise block), i.e. state.dim = state.dim_covariance = n, and LINEAR or
+   EULER measurement layouts (ml linear rows followed by m - ml angles): both corrections
+   average the angle rows of the propagated sigma points with directional_mean and take
+   their offsets with directional_sub (SUKFCorrection since the fix "treats circular
+   measurement components on the circle"; before it the SUKF ignored the circular part).  SUKFCorrection sizes its sigma set from
    pred_state.dim (size_sigmas = 2*dim + 1) while sigma_point() produces
    2*dim_covariance + 1 columns per component; the two agree exactly on this scope.
    The number of sigma points is written  nsig n = 1 + (n + n)  so that the three
@@ -69,9 +73,32 @@ Definition perturbations (n : nat) (c : T Sc) (P : M O n n) : M O n (nsig n) :=
   let A := msqrt P in
   let rc := ssqrt Sc c in
   mhcat (mzero n 1) (mhcat (mscale rc A) (mscale (sopp Sc rc) A)).
-(* sp.topRows(dim_linear) = perturbations.colwise() + mean *)
-Definition sigma_points (n : nat) (c : T Sc) (x : M O n 1) (P : M O n n) : M O n (nsig n) :=
-  mcolwise_add (perturbations n c P) x.
+(* Euler layout of the state: rows [0, nl) linear, rows [nl, n) circular (angles).
+   directional_add(a, b) = arg(exp(j (a.colwise() + b))),  directional_sub(a, b) = directional_add(a, -b)
+   (directional_statistics.cpp:17-29);  arg(exp(j t)) = atan2(sin t, cos t). *)
+Definition wrap (t : T Sc) : T Sc := satan2 Sc (ssin Sc t) (scos Sc t).
+Definition lay_add {r c} (nl : nat) (X : M O r c) (v : M O r 1) : M O r c :=
+  mbuild r c (fun i j => if Nat.ltb i nl then sadd Sc (mget X i j) (mget v i 0)
+                         else wrap (sadd Sc (mget X i j) (mget v i 0))).
+Definition lay_sub {r c} (nl : nat) (X : M O r c) (v : M O r 1) : M O r c :=
+  mbuild r c (fun i j => if Nat.ltb i nl then ssub Sc (mget X i j) (mget v i 0)
+                         else wrap (sadd Sc (mget X i j) (sopp Sc (mget v i 0)))).
+
+(* weighted mean of the columns of Ys under a layout with ml leading linear rows:
+   rows [0, ml): Ys * w;  rows [ml, r): directional_mean(Ys.bottomRows, w) = arg(sum_k w_k exp(j a_ik))
+   = atan2(sum_k w_k sin a_ik, sum_k w_k cos a_ik)   (directional_statistics.cpp:32-44; the
+   single-column branch is never taken: there are 2n+1 >= 3 sigma points) *)
+Definition lay_mean {r c} (ml : nat) (Ys : M O r c) (w : M O c 1) : M O r 1 :=
+  let lin := mmul Ys w in
+  let sn := mmul (mbuild r c (fun i j => ssin Sc (mget Ys i j))) w in
+  let cs := mmul (mbuild r c (fun i j => scos Sc (mget Ys i j))) w in
+  mbuild r 1 (fun i _ => if Nat.ltb i ml then mget lin i 0
+                         else satan2 Sc (mget sn i 0) (mget cs i 0)).
+
+(* sp.topRows(dim_linear) = perturbations.topRows(dim_linear).colwise() + mean.topRows(dim_linear);
+   sp.middleRows(dim_linear, dim_circular) = directional_add(perturbations..., mean...) *)
+Definition sigma_points (n nl : nat) (c : T Sc) (x : M O n 1) (P : M O n n) : M O n (nsig n) :=
+  lay_add nl (perturbations n c P) x.
 
 (* predictedMeasure on the sigma points: h column by column *)
 Definition propagate {n m L} (h : M O n 1 -> M O m 1) (SP : M O n L) : M O m L :=
@@ -113,21 +140,33 @@ Record sukf_out (n m : nat) := mkSukfOut {
 Arguments mkSukfOut {n m}. Arguments so_mean {n m}. Arguments so_cov {n m}.
 Arguments so_innov {n m}. Arguments so_Y {n m}.
 
-Definition sukf_correct_comp {n m s} (w : utw) (h : M O n 1 -> M O m 1) (y : M O m 1)
+(* nl: leading linear rows of the state; ml: leading linear rows of the measurement description
+   (the other m - ml rows are angles: directional_mean / directional_sub, SUKFCorrection.cpp:124-126,157-160) *)
+Definition sukf_correct_comp_lay {n m s} (nl ml : nat) (w : utw) (h : M O n 1 -> M O m 1) (y : M O m 1)
            (nz : noise s m) (x : M O n 1) (P : M O n n) : sukf_out n m :=
   let L := nsig n in
-  let SP := sigma_points n (utc w) x P in
+  let SP := sigma_points n nl (utc w) x P in
   let Yraw := propagate h SP in
-  let ybar := mmul Yraw (wmean_col L w) in
+  let ybar := lay_mean ml Yraw (wmean_col L w) in
   let nu := msub y ybar in
   let D := sqrt_wcov_diag L w in
-  let Y := mmul (mcolwise_sub Yraw ybar) D in
+  let Y := mmul (lay_sub ml Yraw ybar) D in
   let acc := sukf_accum Y nu nz in
-  let X := mmul (mcolwise_sub SP x) D in
+  (* X.topRows(dim_linear).colwise() -= mean; X.bottomRows(dim_circular) = directional_sub(X.bottomRows, mean) *)
+  let X := mmul (lay_sub nl SP x) D in
   let C := minv (fst acc) in
   mkSukfOut (madd x (mmul (mmul X C) (snd acc)))
             (mmul (mmul X C) (mtr X))
             nu Y.
+
+(* a LINEAR measurement description (all m rows linear).  This is also what SUKFCorrection
+   computed for ANY description before the fix "SUKFCorrection treats circular measurement
+   components on the circle": it ignored the circular part.  Kept under this name as the
+   regression spec (Properties_C05.C05_ignoring_circular_measurement_refuted) and because
+   C08_Model builds its wrapped steps from it. *)
+Definition sukf_correct_comp {n m s} (nl : nat) (w : utw) (h : M O n 1 -> M O m 1) (y : M O m 1)
+           (nz : noise s m) (x : M O n 1) (P : M O n n) : sukf_out n m :=
+  sukf_correct_comp_lay nl m w h y nz x P.
 
 (* ---- the mixture and the step -------------------------------------------- *)
 Record mixture (n : nat) := mkMix {
@@ -147,12 +186,18 @@ Definition members (n m : nat) := option (list (sukf_out n m)).
    corr_prev is the previous content of the output object (its weights are kept
    when the step goes through; on a size mismatch corr_state = pred_state).
    Precondition of the constructor: 0 < s (meas_size % 0 is undefined in C++). *)
-Definition sukf_correct {n m s} (w : utw) (h : M O n 1 -> M O m 1) (y : M O m 1)
+Definition overwrite_prefix {A} (new old : list A) : list A := new ++ skipn (length new) old.
+
+Definition sukf_correct {n m s} (nl ml : nat) (w : utw) (h : M O n 1 -> M O m 1) (y : M O m 1)
            (nz : noise s m) (pred corr_prev : mixture n)
   : mixture n * members n m :=
   if Nat.eqb (m mod s) 0 then
-    let outs := map (fun c => sukf_correct_comp w h y nz (fst c) (snd c)) (mix_comps pred) in
-    (mkMix (map (fun o => (so_mean o, so_cov o)) outs) (mix_weights corr_prev), Some outs)
+    let outs := map (fun c => sukf_correct_comp_lay nl ml w h y nz (fst c) (snd c)) (mix_comps pred) in
+    (* corr_state.mean(i) / covariance(i) are written for i < pred_state.components only: an output
+       object with MORE components keeps its other components (one with fewer is written out of
+       bounds: an Eigen assertion, undefined behaviour with NDEBUG -- outside the model) *)
+    (mkMix (overwrite_prefix (map (fun o => (so_mean o, so_cov o)) outs) (mix_comps corr_prev))
+           (mix_weights corr_prev), Some outs)
   else (pred, None).
 
 (* ---- likelihood: the UVR density as getLikelihood() calls it -------------- *)
@@ -176,8 +221,8 @@ Definition gauss_log_value (d : nat) (det q : T Sc) : T Sc :=
    The block products that the code stores side by side (inv_R, V_inv_R,
    diff_T_inv_R) are kept as lists of blocks and read back at column j from
    block j / s, column j mod s. *)
-Definition uvr_log_density {s m L} (input mean : M O m 1) (U : M O m L) (V : M O L m)
-           (R : M O s m) : T Sc :=
+Definition uvr_terms {s m L} (input mean : M O m 1) (U : M O m L) (V : M O L m)
+           (R : M O s m) : T Sc * T Sc :=
   let nb := m / s in
   let diff := mcolwise_sub input mean in
   let shared := Nat.eqb m s in                      (* R.cols() == block_size *)
@@ -198,7 +243,11 @@ Definition uvr_log_density {s m L} (input mean : M O m 1) (U : M O m L) (V : M O
   let det_R := if shared then spow (mdet (Rblk 0)) nb
                else fold_left (fun acc i => smul Sc acc (mdet (Rblk i))) (seq 0 nb) (s1 Sc) in
   let det_S := smul Sc det_R (mdet IVRU) in
-  gauss_log_value m det_S wd.
+  (det_S, wd).           (* det_S: the argument of std::log; wd: weighted_diffs(0) *)
+
+Definition uvr_log_density {s m L} (input mean : M O m 1) (U : M O m L) (V : M O L m)
+           (R : M O s m) : T Sc :=
+  let t := uvr_terms input mean U V R in gauss_log_value m (fst t) (snd t).
 
 (* likelihood(i) = multivariate_gaussian_density_UVR(innovations_.col(i), 0, Y, Y^T, R).coeff(0) *)
 Definition sukf_likelihood_comp {n m s} (nz : noise s m) (o : sukf_out n m) : T Sc :=
@@ -219,29 +268,35 @@ Arguments mkUkfOut {n m}. Arguments uo_mean {n m}. Arguments uo_cov {n m}.
 Arguments uo_innov {n m}. Arguments uo_Pyy {n m}.
 
 (* unscented_transform(pred_state, weight, additive model) followed by the gain update *)
-Definition ukf_correct_comp {n m} (w : utw) (h : M O n 1 -> M O m 1) (y : M O m 1)
+Definition ukf_correct_comp_lay {n m} (nl ml : nat) (w : utw) (h : M O n 1 -> M O m 1) (y : M O m 1)
            (R : M O m m) (x : M O n 1) (P : M O n n) : ukf_out n m :=
   let L := nsig n in
-  let SP := sigma_points n (utc w) x P in
+  let SP := sigma_points n nl (utc w) x P in
   let Yraw := propagate h SP in
-  let ybar := mmul Yraw (wmean_col L w) in
-  let off := mcolwise_sub Yraw ybar in
+  let ybar := lay_mean ml Yraw (wmean_col L w) in      (* output.mean: linear rows Y w, angles directional_mean *)
+  let off := lay_sub ml Yraw ybar in                   (* offsets_from_mean: plain / directional_sub *)
   let W := wcov_diag L w in
   let Pyy := madd (mmul (mmul off W) (mtr off)) R in
-  let inoff := mcolwise_sub SP x in
+  let inoff := lay_sub nl SP x in
   let Pxy := mmul (mmul inoff W) (mtr off) in
   let nu := msub y ybar in
   let K := mmul Pxy (minv Pyy) in
   mkUkfOut (madd x (mmul K nu)) (msub P (mmul (mmul K Pyy) (mtr K))) nu Pyy.
 
+(* linear measurement description *)
+Definition ukf_correct_comp {n m} (nl : nat) (w : utw) (h : M O n 1 -> M O m 1) (y : M O m 1)
+           (R : M O m m) (x : M O n 1) (P : M O n n) : ukf_out n m :=
+  ukf_correct_comp_lay nl m w h y R x P.
+
 (* UKFCorrection::getLikelihood, entry i *)
 Definition ukf_likelihood_comp {n m} (o : ukf_out n m) : T Sc :=
   density (uo_innov o) (mzero m 1) (uo_Pyy o).
 
-Definition ukf_correct {n m} (w : utw) (h : M O n 1 -> M O m 1) (y : M O m 1) (R : M O m m)
+Definition ukf_correct {n m} (nl ml : nat) (w : utw) (h : M O n 1 -> M O m 1) (y : M O m 1) (R : M O m m)
            (pred corr_prev : mixture n) : mixture n * list (ukf_out n m) :=
-  let outs := map (fun c => ukf_correct_comp w h y R (fst c) (snd c)) (mix_comps pred) in
-  (mkMix (map (fun o => (uo_mean o, uo_cov o)) outs) (mix_weights corr_prev), outs).
+  let outs := map (fun c => ukf_correct_comp_lay nl ml w h y R (fst c) (snd c)) (mix_comps pred) in
+  (mkMix (overwrite_prefix (map (fun o => (uo_mean o, uo_cov o)) outs) (mix_comps corr_prev))
+         (mix_weights corr_prev), outs).
 
 (* ---- the harness' family of measurement functions ------------------------- *)
 (* kind 0: h(x) = H x + b
@@ -264,7 +319,9 @@ Arguments ut_weights {_} n alpha beta kappa.
 Arguments wm_at {_} w j. Arguments wc_at {_} w j.
 Arguments wmean_col {_} L w. Arguments wcov_diag {_} L w. Arguments sqrt_wcov_diag {_} L w.
 Arguments mcolwise_add {_ r c} X v. Arguments mcolwise_sub {_ r c} X v.
-Arguments perturbations {_} n c P. Arguments sigma_points {_} n c x P.
+Arguments perturbations {_} n c P. Arguments sigma_points {_} n nl c x P.
+Arguments wrap {_} t. Arguments lay_add {_ r c} nl X v. Arguments lay_sub {_ r c} nl X v.
+Arguments overwrite_prefix {A} new old.
 Arguments propagate {_ n m L} h SP.
 Arguments NoiseReduced {_ s m} R. Arguments NoiseFull {_ s m} R.
 Arguments noise_block {_ s m} nz j.
@@ -272,18 +329,22 @@ Arguments sukf_accum_step {_ s m L} Y nu nz acc j.
 Arguments sukf_accum {_ s m L} Y nu nz.
 Arguments mkSukfOut {_ n m}. Arguments so_mean {_ n m}. Arguments so_cov {_ n m}.
 Arguments so_innov {_ n m}. Arguments so_Y {_ n m}.
-Arguments sukf_correct_comp {_ n m s} w h y nz x P.
+Arguments sukf_correct_comp_lay {_ n m s} nl ml w h y nz x P.
+Arguments sukf_correct_comp {_ n m s} nl w h y nz x P.
+Arguments lay_mean {_ r c} ml Ys w.
 Arguments mkMix {_ n}. Arguments mix_comps {_ n}. Arguments mix_weights {_ n}.
-Arguments sukf_correct {_ n m s} w h y nz pred corr_prev.
+Arguments sukf_correct {_ n m s} nl ml w h y nz pred corr_prev.
 Arguments spow {_} x k.
 Arguments lik_Rcat {_ s m} nz.
 Arguments gauss_log_value {_} d det q.
+Arguments uvr_terms {_ s m L} input mean U V R.
 Arguments uvr_log_density {_ s m L} input mean U V R.
 Arguments sukf_likelihood_comp {_ n m s} nz o.
 Arguments sukf_likelihood {_ n m s} nz mb.
 Arguments mkUkfOut {_ n m}. Arguments uo_mean {_ n m}. Arguments uo_cov {_ n m}.
 Arguments uo_innov {_ n m}. Arguments uo_Pyy {_ n m}.
-Arguments ukf_correct_comp {_ n m} w h y R x P.
+Arguments ukf_correct_comp_lay {_ n m} nl ml w h y R x P.
+Arguments ukf_correct_comp {_ n m} nl w h y R x P.
 Arguments ukf_likelihood_comp {_ n m} o.
-Arguments ukf_correct {_ n m} w h y R pred corr_prev.
+Arguments ukf_correct {_ n m} nl ml w h y R pred corr_prev.
 Arguments h_family {_ n m} kind H G G2 b g x.
